@@ -895,7 +895,8 @@ func (g *gen) shapeWide() (*spec, *spec) {
 	for i := 0; i < n; i++ {
 		switch code {
 		case cMap:
-			a.keys = append(a.keys, "k"+itoa(i*7%n)+keyPool[i%len(keyPool)])
+			// unique: i*7%n alone repeats when 7 divides n
+			a.keys = append(a.keys, "k"+itoa(i*7%n)+keyPool[i%len(keyPool)]+"#"+itoa(i))
 		case cIntMap:
 			a.ikeys = append(a.ikeys, int32(i*101+i%3))
 		}
